@@ -7,9 +7,8 @@ Source modelled (one Lean function per Python function):
       calculate_factor                                      Fac.num
       determine_prev_date / determine_next_date,
       calculate_duration_between_dates                      the gaps inside `winsFrom`
-      calculate_end_date                                    endOffset
-      calculate_start_date (repaired, commit b848134)       startOffset
-      calculate_start_date (before the repair)              startOffsetCeil
+      calculate_end_date / calculate_start_date (repaired)  endOffset / startOffset
+      the same two before the repairs, exact arithmetic     endOffsetOrig / startOffsetOrig
       calculate_volume_emitted                              Win.days / Win.volNum
   file_processing/output_processing/program_output.py
       determine_start_and_end_dates (repaired, eb03b8f)     winsFrom over one group
@@ -21,8 +20,9 @@ integers over a common scale (`rate / scale` g/s).  `⌊g · n / q⌋` is `(g * 
 division rounds towards −∞ for a positive divisor).
 
 The only place where the real code uses floating point is the product `duration * factor` under
-`np.floor`.  The model is therefore parametric in a `Rounding` (gap, condition ↦ the integer the
-code obtains for `floor(gap * factor)`); `exactFloor` is the rounding of exact arithmetic.
+`np.floor` / `np.ceil`.  The model is therefore parametric in a `Rounding` (duration ↦ the integers
+the code obtains for `floor(duration * factor)` and `ceil(duration * factor)`); `exactRounding` is
+the rounding of exact arithmetic.
 -/
 namespace LdarModel.Window
 
@@ -62,22 +62,33 @@ instance (f : Fac) : Decidable f.Valid := by unfold Fac.Valid; exact inferInstan
 /-- `calculate_factor`: numerator (over `q`) of `np.where(condition, 1 - factor, factor)` -/
 def Fac.num (f : Fac) (c : Bool) : Int := if c then f.q - f.p else f.p
 
-/-- what the code obtains for `np.floor(duration * np.where(condition, 1 - factor, factor))` -/
-abbrev Rounding := Int → Bool → Int
+/-- the only place where the code rounds: what it obtains for `np.floor(duration * factor)` (`lo`)
+and for `np.ceil(duration * factor)` (`hi`), as functions of the duration -/
+structure Rounding where
+  lo : Int → Int
+  hi : Int → Int
 
-/-- the rounding of exact arithmetic: `⌊g · a⌋`, `a = 1 − f` if the condition holds, else `f` -/
-def exactFloor (f : Fac) : Rounding := fun g c => (g * f.num c) / f.q
+/-- the rounding of exact arithmetic: `⌊g · f⌋` and `⌈g · f⌉` -/
+def exactRounding (f : Fac) : Rounding :=
+  { lo := fun g => (g * f.p) / f.q, hi := fun g => -((-(g * f.p)) / f.q) }
 
-/-- `calculate_end_date`: days after the survey date, `floor(duration * factor(next condition))` -/
-def endOffset (ρ : Rounding) (g : Int) (c : Bool) : Int := ρ g c
+/-- `calculate_end_date` (repaired): days after the survey date.  Next condition False (this row is
+the larger or equal measurement): `floor(duration * factor)`; True: what the next row's
+`ceil(duration * factor)` leaves -/
+def endOffset (ρ : Rounding) (g : Int) (c : Bool) : Int := if c then g - ρ.hi g else ρ.lo g
 
-/-- `calculate_start_date` (repaired): days before the survey date,
-`duration - floor(duration * factor(not previous condition))` -/
-def startOffset (ρ : Rounding) (g : Int) (c : Bool) : Int := g - ρ g (!c)
+/-- `calculate_start_date` (repaired): days before the survey date.  Previous condition False (this
+row is the larger measurement): `ceil(duration * factor)`; True: what the previous row's
+`floor(duration * factor)` leaves -/
+def startOffset (ρ : Rounding) (g : Int) (c : Bool) : Int := if c then g - ρ.lo g else ρ.hi g
 
-/-- `calculate_start_date` as it was before the repair, in exact arithmetic:
-`ceil(duration * factor(previous condition))` -/
-def startOffsetCeil (f : Fac) (g : Int) (c : Bool) : Int := -((-(g * f.num c)) / f.q)
+/-- `calculate_end_date` as it was before the repairs, in exact arithmetic:
+`floor(duration * np.where(condition, 1 - factor, factor))` -/
+def endOffsetOrig (f : Fac) (g : Int) (c : Bool) : Int := (g * f.num c) / f.q
+
+/-- `calculate_start_date` as it was before the repairs, in exact arithmetic:
+`ceil(duration * np.where(condition, 1 - factor, factor))` -/
+def startOffsetOrig (f : Fac) (g : Int) (c : Bool) : Int := -((-(g * f.num c)) / f.q)
 
 /-- `determine_start_and_end_dates` on the date-sorted rows of one group.  `prev` is the row
 before the current one (`none` for the first row: `shift(1).fillna(own date)` gives a zero gap
